@@ -291,6 +291,43 @@
 #[macro_use]
 extern crate derive_builder;
 
+/// Verification hooks (feature `verif-hooks`); not part of the public API.
+#[cfg(feature = "verif-hooks")]
+#[doc(hidden)]
+pub mod verif;
+
+/// Failpoint site: with feature `verif-hooks`, returns `Err($err)` from the enclosing
+/// function when the named site is armed; expands to nothing otherwise.
+#[cfg(feature = "verif-hooks")]
+#[allow(unused_macros)]
+macro_rules! verif_failpoint {
+    ($site:literal, $err:expr) => {
+        if $crate::verif::fail($site) {
+            return Err($err);
+        }
+    };
+}
+#[cfg(not(feature = "verif-hooks"))]
+#[allow(unused_macros)]
+macro_rules! verif_failpoint {
+    ($site:literal, $err:expr) => {};
+}
+
+/// Work counter site: with feature `verif-hooks`, counts one unit of work at the named
+/// site; expands to nothing otherwise.
+#[cfg(feature = "verif-hooks")]
+#[allow(unused_macros)]
+macro_rules! verif_tick {
+    ($site:literal) => {
+        $crate::verif::tick($site);
+    };
+}
+#[cfg(not(feature = "verif-hooks"))]
+#[allow(unused_macros)]
+macro_rules! verif_tick {
+    ($site:literal) => {};
+}
+
 /// The `core` module contains the primary data structures and algorithms for building and manipulating Delaunay triangulations.
 ///
 /// It includes the `Tds` struct, which represents the triangulation, as well as `Cell`, `Facet`, and `Vertex` components.
